@@ -28,10 +28,15 @@ func VerifC20Script() {
 		k := verifapi.Choose(fmt.Sprint("ev", e), 5)
 		switch k {
 		case 0: // Start (the pool may refuse the connect)
-			fails := verifapi.Bool(fmt.Sprint("connectfails", e))
+			// the pool may refuse the connect, or fail the first keep-alive that Start itself sends
+			mode := verifapi.Choose(fmt.Sprint("startfailure", e), 3)
+			fails := mode != 0 && !running
 			script.connectErr = nil
-			if fails {
+			if mode == 1 {
 				script.connectErr = errors.New("pool down")
+			}
+			if mode == 2 && !running {
+				script.failUpdateAt = script.updates + 1
 			}
 			tickers := verifapi.Tickers()
 			err := a.Start(script)
@@ -43,6 +48,7 @@ func VerifC20Script() {
 			} else if fails {
 				verifapi.Assert(err != nil, "c20.failed-start-reported")
 				verifapi.Assert(verifapi.LiveGoroutines() == 0, "c20.failed-start-leaves-nothing-running")
+				script.failUpdateAt = 0
 			} else {
 				verifapi.Assert(err == nil, "c20.start-succeeds")
 				verifapi.Assert(verifapi.LiveGoroutines() == 1, "c20.exactly-one-loop")
